@@ -159,7 +159,10 @@ class SdfTransformer(Transformer):
     @staticmethod
     def start(args):
         name = next((a for a in args if isinstance(a, str)), None)
-        cells = dict(t for t in args if isinstance(t, tuple))
+        cells = {}
+        for t in args:  # a file may contain several CELL blocks for one instance (or several un-named top-level blocks)
+            if isinstance(t, tuple):
+                cells.setdefault(t[0], []).extend(t[1])
         return DelayFile(name, cells)
 
 
